@@ -141,6 +141,9 @@ PART_CORPUS = [
     scenario([], ["%e"]), scenario([], ["*"]), scenario(["%e"], ["*"]), scenario(["A*"], ["A?"]), scenario(["a+"], ["aa"]),
     scenario([], []), scenario(["A"], ["B", "A"]), scenario(["A"], ["B"]), scenario(["A1"], ["?1"]), scenario(["[a-b]1"], ["b1", "c1"]),
     scenario(["A"], ["A"], topic_w="T", topic_r="U"),
+    # exactly ONE of two names is matched by the other side's pattern, in both roles and both orders; one of two patterns matches
+    scenario(["A1", "B"], ["A*"]), scenario(["B", "A1"], ["A*"]), scenario(["A*"], ["A1", "B"]), scenario(["A*"], ["B", "A1"]),
+    scenario(["A1"], ["[a-b]1", "A*"]), scenario(["[a-b]1", "A*"], ["A1"]), scenario(["B", "c1"], ["A*"]), scenario(["A*"], ["B", "c1"]),
 ]
 
 
@@ -155,9 +158,46 @@ def gen_list(r):
     return out
 
 
+def _plain(n):
+    return not is_pattern(n) and "+" not in n
+
+
+def one_of_two(r):
+    """two-name (or two-pattern) lists in which exactly ONE element decides: a pattern p on one side, on the other side a name it
+    matches and a name it does not match (both orders, both roles), or two patterns of which one matches the single name of the
+    other side, or no match at all. `+` patterns are left out (D20c), the other side is pattern-free (no D20b)."""
+    pats = [p for p in PATTERNS if "+" not in p]
+    names = [n for n in NAMES if _plain(n)]
+    p = r.choice(pats)
+    hit = [n for n in names if spec_name_match(p, n)]
+    miss = [n for n in names if not spec_name_match(p, n)]
+    kind = r.below(10)
+    if kind < 5 and hit and miss:
+        other = r.shuffle([r.choice(hit), r.choice(miss)])
+        one = [p]
+    elif kind < 8 and hit:
+        x = r.choice(hit)
+        qs = [q for q in pats if not spec_name_match(q, x)]
+        if not qs:
+            return None
+        one = r.shuffle([p, r.choice(qs)])
+        other = [x] if r.chance(1, 2) or not miss else r.shuffle([x, r.choice(miss)])
+    elif len(miss) >= 2:
+        other = r.shuffle(miss)[:2]
+        one = [p]
+    else:
+        return None
+    # role: the pattern side is the subscriber or the publisher
+    return (other, one) if r.chance(1, 2) else (one, other)
+
+
 def partition_cases(r, tier):
     n = 150 if tier == "quick" else 2000
     cases = [Case(c) for c in PART_CORPUS]
+    for _ in range(60 if tier == "quick" else 800):
+        x = one_of_two(r)
+        if x is not None:
+            cases.append(Case(scenario(x[0], x[1], "T", "T", r.chance(1, 2))))
     for _ in range(n):
         pa, pb = gen_list(r), gen_list(r)
         if r.chance(1, 3) and pa:
